@@ -33,7 +33,7 @@ pub fn defs() -> Vec<PropDef> {
         run: run_c19,
         replay: replay_c19,
         post: |_, g, _| {
-            for k in ["silence-sweep", "histories", "histories-fresh-process", "long-history", "loom-pairs", "free-running", "render-history"] {
+            for k in ["silence-sweep", "histories", "histories-fresh-process", "long-history", "loom-pairs", "free-running", "render-history", "refusal-history"] {
                 if !g.contains_key(k) {
                     return Err(format!("C19 guard {k} never hit"));
                 }
@@ -935,6 +935,12 @@ fn run_c19(ctx: &mut Ctx) {
         let desc = || json!({"kind":"render-history"});
         ctx.case(&desc, render_history);
     }
+    // (b5) refusals leave no state behind
+    if ctx.shard == 5 % ctx.nshards {
+        let desc = || json!({"kind":"refusal-history"});
+        let b2 = base.clone();
+        ctx.case(&desc, |ctx| refusal_history(ctx, &b2));
+    }
     // (e) environment access: the library must not consult the process environment
     if ctx.shard == 2 % ctx.nshards {
         environment_access(ctx);
@@ -949,6 +955,68 @@ fn run_c19(ctx: &mut Ctx) {
         ctx.guard("free-running");
     }
     ctx.samples.push(hist_json(&[1, 2, 0], "in-process"));
+}
+
+/// (b5) the loud refusals the properties allow (an oversize value, an overwrite outside the written
+/// data, a message over 65 535 octets, hiding an oversize AVP) must leave nothing behind: after
+/// each of them — made under `catch_unwind`, as a caller may — every call of the alphabet still
+/// gives its pristine result (a poisoned lock, a scratch buffer left dirty by the unwinding, a
+/// length left in a static would show).
+fn refusal_history(ctx: &mut Ctx, base: &[String]) {
+    use rl2tp::common::{VecWriter, Writer};
+    let big = |n: usize| bridge::avp_to_crate(&SAvp::Plain { attr: 7, val: SVal::Bytes(ramp(n)) }).unwrap();
+    let refusals: Vec<(&str, Box<dyn Fn() -> bool>)> = vec![
+        ("hide-oversize", Box::new(move || guarded(|| big(1018).hide(b"secret", &RandomVector::from([1, 2, 3, 4]), &[], &[7u8; 16])).is_err())),
+        ("hide-oversize-by-padding", Box::new(move || guarded(|| big(900).hide(b"secret", &RandomVector::from([1, 2, 3, 4]), &[0u8; 200], &[7u8; 16])).is_err())),
+        ("write-oversize-avp", Box::new(move || {
+            guarded(|| {
+                let mut w = VecWriter::new();
+                big(1018).write(&mut w);
+            })
+            .is_err()
+        })),
+        ("write-oversize-message", Box::new(move || {
+            guarded(|| {
+                let avps: Vec<SAvp> = std::iter::once(SAvp::Plain { attr: 0, val: SVal::MessageType(1) }).chain((0..65).map(|_| SAvp::Plain { attr: 7, val: SVal::Bytes(ramp(1017)) })).collect();
+                let m = spec::SMessage::Control { length: 0, tid: 1, sid: 2, ns: 3, nr: 4, avps };
+                let mut w = VecWriter::new();
+                bridge::message_to_crate(&m).unwrap().write(&mut w);
+            })
+            .is_err()
+        })),
+        ("overwrite-outside", Box::new(move || {
+            guarded(|| {
+                let mut w = VecWriter::new();
+                w.write_bytes(&[1, 2, 3]);
+                w.write_bytes_at(&[9, 9], 2);
+            })
+            .is_err()
+        })),
+    ];
+    let mut n = 0u64;
+    for (name, f) in &refusals {
+        let refused = f();
+        ctx.tally(if refused { "refusal-made" } else { "refusal-not-refused (C07/C18 decide)" });
+        for i in 0..N_CALLS {
+            n += 1;
+            let got = call(i, &NoTick);
+            if got != base[i] {
+                ctx.violation(
+                    format!("C19 state-left-by-refusal {name} {}", CALL_NAMES[i]),
+                    format!("after the refused call {name} (caught by the caller), call {} gives {} instead of its pristine result {}", CALL_NAMES[i], clip(&got), clip(&base[i])),
+                    2,
+                    || json!({"kind":"refusal-history"}),
+                );
+                ctx.executions += n;
+                return;
+            }
+        }
+    }
+    ctx.states += n;
+    ctx.transitions += n;
+    ctx.executions += n;
+    ctx.nontrivial_direct += n;
+    ctx.guard("refusal-history");
 }
 
 /// (b4) rendering is a function of the error value: every u16-carrying error rendered for the
@@ -1354,6 +1422,11 @@ fn replay_c19(ctx: &mut Ctx, v: &Value) {
                 }
             }
             let _ = std::fs::remove_file(&inputs);
+        }
+        Some("refusal-history") => {
+            let desc = || json!({"kind":"refusal-history"});
+            let b2 = base.clone();
+            ctx.case(&desc, |ctx| refusal_history(ctx, &b2));
         }
         Some("render-history") => {
             let desc = || json!({"kind":"render-history"});
